@@ -32,6 +32,8 @@ ITEMS = [
     ('template', 'start: rep{A}\nrep{t}: t%s\nA: "a"\n', lambda k: 'a' * k, None),
     ('anon', 'start: "a"%s X\nX: "x"\n', None, None),
 ]
+# items that are groups WITH alternatives (each occurrence chooses independently) or contain their own quantifier
+ALT_ITEMS = [('("a"|"b")', ['a', 'b']), ('(A|b)', ['a', 'b']), ('("a" "b"?)', ['a', 'ab']), ('("a"~1..2)', ['a', 'aa']), ('(x|"b")', ['a', 'b'])]
 
 if tier == 'quick':
     BOUNDS = [(0, 0), (0, 1), (1, 1), (2, 3), (0, 3), (3, 3), (49, 49), (50, 50), (51, 51), (0, 50), (0, 51), (1, 60), (48, 52), (50, 53), (64, 64), (100, 100), (30, 130), (127, 131), (211, 211), (0, 200)]
@@ -79,6 +81,34 @@ for parser in ('lalr', 'earley'):
                     note('shape:rule', {'grammar': g, 'parser': parser, 'occurrences': k}, [getattr(c, 'data', c) for c in node.children][:8], 'k x-nodes')
         if len(fails) >= 4: break
 
+    # groups with alternatives: every mix of the alternatives, k occurrences (ambiguous items only with Earley and small bounds)
+    for item, units in ALT_ITEMS:
+        ambiguous = any(u != v and v.startswith(u) for u in units for v in units)
+        if ambiguous and parser == 'lalr':
+            continue
+        for (n, m) in ([(2, 2), (1, 3), (0, 2), (3, 3)] + ([(50, 50), (49, 51)] if parser == 'lalr' else [])):
+            g = 'start: %s~%d..%d ";"\nA: "a"\nb: "b"\nx: "a"\n' % (item, n, m)
+            try:
+                lark = Lark(g, parser=parser)
+            except Exception as e:
+                note('load:alt-group', {'grammar': g, 'parser': parser}, repr(e)[:300], 'the grammar loads'); continue
+            for k in sorted({max(n - 1, 0), n, m, m + 1}):
+                mixes = [[units[(i + sh) % len(units)] if (i * 7 + sh) % 3 else units[0] for i in range(k)] for sh in range(3)] + [[units[i % len(units)] for i in range(k)]]
+                for mix in mixes:
+                    evals += 1; distinct += 1
+                    text = ''.join(mix) + ';'
+                    body = text[:-1]
+                    # the number of occurrences a text can be split into need not be unique ("a"~1..2, "a" "b"?): reachable (position, count) pairs
+                    seen, todo = {(0, 0)}, [(0, 0)]
+                    while todo:
+                        pos, cnt = todo.pop()
+                        for u in set(units):
+                            if body.startswith(u, pos) and (pos + len(u), cnt + 1) not in seen and cnt + 1 <= m + 2:
+                                seen.add((pos + len(u), cnt + 1)); todo.append((pos + len(u), cnt + 1))
+                    want = any(pos == len(body) and n <= c <= m for pos, c in seen)
+                    got = accepts(lark, text) is not None
+                    if got != want:
+                        note('count:alt-group', {'grammar': g, 'parser': parser, 'text': text}, 'accepted' if got else 'rejected', 'accepted iff some split into %d..%d occurrences exists' % (n, m))
     # ?, *, +
     for name, gt, _, _ in ITEMS[:3]:
         for op, lo, hi in (('?', 0, 1), ('*', 0, None), ('+', 1, None)):
